@@ -1,5 +1,6 @@
 (* Props/C19.v -- C19: interned strings stay valid and distinct for the lifetime of the run. *)
 From Az65 Require Import Base Interner InternerFacts.
+From Az65 Require Import AbsPath AbsPathFacts.
 From Coq Require Import Permutation.
 Open Scope N_scope.
 
@@ -58,3 +59,28 @@ Example C19_example :
   length (i_old it) = 2%nat /\ i_moved it = false /\
   read it {| h_buf := 0; h_start := 0; h_len := 30 |} = Some (repeat 97 30).
 Proof. vm_compute. repeat split. Qed.
+
+(* The interner of absolute paths is the byte interner applied to AbsPath.abs_norm dir path (the lexical normal form of the
+   path taken relative to the directory), so the four theorems above speak about normal forms.  About the normal form
+   itself, for EVERY directory and path (any bytes): *)
+(* it is absolute ... *)
+Theorem C19_abs_norm_absolute :
+  forall cwd path : bytes, is_abs (abs_norm cwd path) = true.
+Proof. exact abs_norm_absolute. Qed.
+Print Assumptions C19_abs_norm_absolute.
+
+(* ... it is a fixed point: interning the text of a handle again, from whatever directory, yields the same text (hence,
+   by C19_same_text_same_handle, the same handle) ... *)
+Theorem C19_abs_norm_idempotent :
+  forall cwd cwd' path : bytes, abs_norm cwd' (abs_norm cwd path) = abs_norm cwd path.
+Proof. exact abs_norm_idempotent. Qed.
+Print Assumptions C19_abs_norm_idempotent.
+
+(* ... and it has no empty, `.` or `..` segment left (doubled and trailing separators, dot segments never make two
+   handles for one file) *)
+Theorem C19_abs_norm_segments :
+  forall cwd path : bytes,
+    exists parts, abs_norm cwd path = render parts /\
+                  Forall (fun p => p <> [] /\ p <> [46%N] /\ p <> [46%N; 46%N] /\ ~ In SEP p) parts.
+Proof. exact abs_norm_segments. Qed.
+Print Assumptions C19_abs_norm_segments.
